@@ -461,6 +461,28 @@ def check_diff_lines(chk, progs):
             chk.bad('C20.D', rel, 'diffLines', f'no {T} block', f'diffLines never produces a {T} block', detail={})
 
 
+def check_diff_eval(chk, rule='C20.B'):
+    import os
+    from .. import baresim
+    path = os.path.join(chk.repo.root, 'src', 'bare_script', 'include', 'diff.bare')
+    if not os.path.exists(path):
+        raise Unrecognised(rule, 'include/diff.bare not found', None)
+    with open(path, encoding='utf-8') as fh:
+        text = fh.read()
+    try:
+        n, problems = baresim.run_diff_lines(text, chk.tier)
+    except Unrecognised as exc:
+        raise Unrecognised(rule, exc.what, 'src/bare_script/include/diff.bare')
+    if problems:
+        chk.bad(rule, 'src/bare_script/include/diff.bare', 'diffLines', problems[0][:110], f'reference evaluation of the shipped diffLines on {n} inputs: {problems[0]} '
+                f'({len(problems)} inputs deviate)')
+        return False
+    chk.ok(rule, f'{n} evaluated calls: every pair of line lists up to length {4 if chk.tier != "thorough" else 5} over {"{a, b}" if chk.tier != "thorough" else "{a, b, empty line}"}, '
+           f'LF / CRLF texts, a text against a list: the blocks are Identical / Add / Remove with non-empty lines, reconstruct the left and the right lines, and identical inputs '
+           f'yield Identical blocks only', count=n)
+    return True
+
+
 def run(chk):
     chk.rule('C20.W', 'shipped scripts are well-formed (independent front-end)', floor=7)
     chk.rule('C20.L', 'lint-equivalent facts: shipped scripts are lint-clean', floor=7)
@@ -472,7 +494,15 @@ def run(chk):
     progs = load_programs(chk)
     chk.guard('C20.C', check_calls_and_nulls, chk, progs)
     chk.guard('C20.L', check_lint_facts, chk, progs)
-    chk.guard('C20.D', check_diff_lines, chk, progs)
+    chk.rule('C20.B', 'diffLines of the shipped diff.bare evaluated by the reference evaluator (E9x) on all pairs of small line lists and on texts: blocks reconstruct both inputs', floor=200)
+    diff_ok = chk.guard('C20.B', check_diff_eval, chk)
+    (chk.advisory if diff_ok else chk.guard)('C20.D', check_diff_lines, chk, progs)
+    if diff_ok:
+        chk.floors.pop('C20.D', None)
+    # every shipped include is lint-clean under the repository's own linter (shared with C18: lint_script evaluated on the parsed includes)
+    from . import c18
+    chk.rule('C18.R', 'shared with C18: lint_script, evaluated on the models parse_script (evaluated) gives for the shipped includes, reports nothing and never raises')
+    chk.guard('C18.R', c18.check_lint_sim, chk, 'C18.R', ('include', 'raise', 'structured'))
     # library functions diffLines and unittestDeepEqual rely on (shared C15.H)
     from . import c15
     chk.rule('C15.H', 'shared with C15: regexSplit / arraySlice / arrayGet / arrayLength / arrayPush / objectNew wrappers keep their contracts')
